@@ -199,48 +199,51 @@ theorem step_inv {s s' : GState R O} (l : Label R O) (hi : Inv s) (h : step .non
       have := (hi.b he).2.1
       simp [hg.1] at this
     · simp [hg] at h
+  | check r on =>
+    simp only [step] at h
+    cases hsp : aget r s.spawned with
+    | none => simp [hsp] at h
+    | some ind =>
+      simp only [hsp] at h
+      split at h
+      · rename_i hg
+        have hst := started_of_spawned hi hsp
+        by_cases hon : on = true
+        · simp only [hon, if_true, Option.some.injEq] at h
+          have hison : s.isOn = true := by rw [← hg.1]; exact hon
+          have hready := ready_of_isOn hi hison
+          subst h
+          exact ⟨by simp [hst], hi.c1, hi.c1', hi.c2, hi.c3, (fun _ _ => rfl), hi.c5,
+                 (fun he => by simp at he), (fun _ => hready)⟩
+        · simp only [hon, Bool.false_eq_true, if_false, Option.some.injEq] at h
+          subst h
+          exact ⟨hi.c0, hi.c1, hi.c1', hi.c2, hi.c3, hi.c4, hi.c5, hi.a, hi.b⟩
+      · cases h
   | arrive r o gated hasToggle =>
     simp only [step] at h
     cases hsp : aget r s.spawned with
     | none => simp [hsp] at h
     | some ind =>
-      cases hw : s.workers (r, o) with
-      | some w => simp [hsp, hw] at h
-      | none =>
-        simp only [hsp, hw] at h
-        split at h
-        · rename_i hg
+      simp only [hsp] at h
+      split at h
+      · split at h
+        · rename_i hfree hg
           simp only [Option.some.injEq] at h
-          have hg1 : gated = (!(decide (r ∈ s.detached) || s.isOn)) := hg.1
-          have hg2 : hasToggle = (!(decide (r ∈ s.detached) || s.isOn) && ind) := hg.2
+          have hg1 : gated = (!decide (r ∈ s.detached)) := hg.1
+          have hg2 : hasToggle = (!decide (r ∈ s.detached) && ind) := hg.2.1
           have hst := started_of_spawned hi hsp
-          -- facts about the decision
-          have hdet_ev : (decide (r ∈ s.detached) || s.isOn) = true → (s.everOn || s.isOn) = true := by
-            intro hd
-            have hd' : r ∈ s.detached ∨ s.isOn = true := by simpa using hd
-            rcases hd' with h1 | h1
-            · have := hi.c4 r h1; simp [this]
-            · simp [h1]
-          have hnew : ind = true → r ∉ s.listed → (decide (r ∈ s.detached) || s.isOn) = false := by
-            intro hind hnl
-            have hres : r ∈ s.resTog := hi.c2 r (hind ▸ hsp) hnl
-            have h1 : s.isOn = false := by
-              cases hon : s.isOn with
-              | false => rfl
-              | true => have := ((isOn_iff s).1 hon).2.1; simp [this] at hres
-            have h2 : r ∉ s.detached := by
-              intro hd
-              have := (hi.b (hi.c4 r hd)).2.2.2.1 r (hind ▸ hsp)
-              exact hnl this
-            simp [h1, h2]
+          have hnew : ind = true → r ∉ s.listed → r ∉ s.detached := by
+            intro hind hnl hd
+            have := (hi.b (hi.c4 r hd)).2.2.2.1 r (hind ▸ hsp)
+            exact hnl this
           subst h
-          refine ⟨by simp [hst], hi.c1, hi.c1', hi.c2, ?_, ?_, ?_, ?_, ?_⟩
+          refine ⟨by simp [hst], hi.c1, hi.c1', hi.c2, ?_, hi.c4, ?_, ?_, ?_⟩
           · -- c3
             intro ro hro hni
             have hro' : ro ∈ (if (ind && !decide (r ∈ s.listed)) = true then sadd (r, o) s.listing
                                else s.listing) := hro
             have hni' : ro ∉ s.indexedOnce := hni
-            show ro ∈ (if (!(decide (r ∈ s.detached) || s.isOn) && ind) = true then sadd (r, o) s.objTog
+            show ro ∈ (if (!decide (r ∈ s.detached) && ind) = true then sadd (r, o) s.objTog
                         else s.objTog)
             by_cases hcond : (ind && !decide (r ∈ s.listed)) = true
             · rw [if_pos hcond, mem_sadd] at hro'
@@ -252,16 +255,6 @@ theorem step_inv {s s' : GState R O} (l : Label R O) (hi : Inv s) (h : step .non
               · exact mem_ite_sadd_of_mem (hi.c3 ro hro' hni')
             · rw [if_neg hcond] at hro'
               exact mem_ite_sadd_of_mem (hi.c3 ro hro' hni')
-          · -- c4
-            intro r0 hr0
-            have hr0' : r0 ∈ (if (decide (r ∈ s.detached) || s.isOn) = true then sadd r s.detached
-                               else s.detached) := hr0
-            show (s.everOn || s.isOn) = true
-            by_cases hd : (decide (r ∈ s.detached) || s.isOn) = true
-            · exact hdet_ev hd
-            · rw [if_neg hd] at hr0'
-              have := hi.c4 r0 hr0'
-              simp [this]
           · -- c5
             intro ro w hw' hpc
             have hw'' : upd s.workers (r, o) (some ⟨.queued, gated, hasToggle⟩) ro = some w := by
@@ -276,9 +269,8 @@ theorem step_inv {s s' : GState R O} (l : Label R O) (hi : Inv s) (h : step .non
               exact hi.c5 ro w hw'' hpc
           · -- a
             intro he
-            have he' : (s.everOn || s.isOn) = false := he
-            simp only [Bool.or_eq_false_iff] at he'
-            refine ⟨(hi.a he'.1).1, ?_⟩
+            have he' : s.everOn = false := he
+            refine ⟨(hi.a he').1, ?_⟩
             intro ro w hw'
             have hw'' : upd s.workers (r, o) (some ⟨.queued, gated, hasToggle⟩) ro = some w := by
               rw [hg1, hg2]; exact hw'
@@ -286,19 +278,13 @@ theorem step_inv {s s' : GState R O} (l : Label R O) (hi : Inv s) (h : step .non
             · subst heq
               rw [upd_same] at hw''
               cases hw''
-              have hnd : r ∉ s.detached := fun hd => by have := hi.c4 r hd; simp [he'.1] at this
-              simp [hg1, hnd, he'.2]
+              have hnd : r ∉ s.detached := fun hd => by have := hi.c4 r hd; simp [he'] at this
+              simp [hg1, hnd]
             · rw [upd_other _ _ _ heq] at hw''
-              exact (hi.a he'.1).2 ro w hw''
+              exact (hi.a he').2 ro w hw''
           · -- b
             intro he
-            have he' : s.everOn = true ∨ s.isOn = true := by
-              have : (s.everOn || s.isOn) = true := he
-              simpa using this
-            have hready : Ready s := by
-              rcases he' with h1 | h1
-              · exact hi.b h1
-              · exact ready_of_isOn hi h1
+            have hready : Ready s := hi.b he
             refine ready_mono hready rfl rfl rfl rfl (fun _ h => h) ?_ (fun _ h => h)
             intro ro hro
             have hro' : ro ∈ (if (ind && !decide (r ∈ s.listed)) = true then sadd (r, o) s.listing
@@ -309,6 +295,7 @@ theorem step_inv {s s' : GState R O} (l : Label R O) (hi : Inv s) (h : step .non
             · rw [if_neg hcond] at hro'
               exact hro'
         · cases h
+      · cases h
   | listed r =>
     simp only [step] at h
     cases hsp : aget r s.spawned with
